@@ -29,3 +29,18 @@ def c16_identifier_backslash():
     direct = [d.name for d in conn.cursor().execute(sql).description]
     via = [d.name for d in list(conn.execute_string(sql))[0].description]
     return direct != via, f"{sql!r}: column name direct {direct!r}, via execute_string {via!r}"
+
+
+def c15_reference_inside_literal():
+    from vf.real import real_cursor
+
+    fs, conn, cur = real_cursor(False)
+    cur.execute("set v1 = 42")
+    got = cur.execute("select '$v1' as a").fetchall()
+    try:
+        cur.execute("select 'costs $5' as b").fetchall()
+        raised = None
+    except Exception as e:  # noqa: BLE001
+        raised = f"{type(e).__name__}: {e}"
+    bad = got != [("$v1",)] or raised is not None
+    return bad, f"select '$v1' returned {got!r} (text inside a string literal was rewritten); select 'costs $5' -> {raised}"
